@@ -2,6 +2,7 @@ package remote
 
 import (
 	"fmt"
+	"math"
 	"reflect"
 	"strings"
 	"time"
@@ -183,6 +184,7 @@ func (f *localWrapper) Sync(schema proxyv1alpha1.FlowControlSchema) {
 type remoteWrapper struct {
 	GlobalCounterFlowControl
 	remoteConfig     proxyv1alpha1.RateLimitItemConfiguration
+	appliedConfig    proxyv1alpha1.RateLimitItemConfiguration
 	flowControlCache *flowControlCache
 	stopCh           chan struct{}
 }
@@ -192,47 +194,74 @@ func (f *remoteWrapper) Config() proxyv1alpha1.RateLimitItemConfiguration {
 }
 
 func (f *remoteWrapper) Sync(limitItem proxyv1alpha1.RateLimitItemConfiguration) {
-	if reflect.DeepEqual(limitItem, f.remoteConfig) {
+	// the limiter is always built and resized from the bounded item, never from the raw answer
+	applied := f.boundByGlobalLimit(limitItem)
+	if reflect.DeepEqual(limitItem, f.remoteConfig) && reflect.DeepEqual(applied, f.appliedConfig) {
 		return
 	}
 
 	defer func() {
 		f.remoteConfig = limitItem
+		f.appliedConfig = applied
 	}()
 
 	newType := flowcontrol.GetFlowControlTypeFromLimitItem(limitItem.LimitItemDetail)
 	klog.V(5).Infof("[remote limiter] cluster=%q name=%q sync flowcontrol", f.flowControlCache.cluster, limitItem.Name)
 
 	if f.GlobalCounterFlowControl == nil || f.Type() != newType || f.remoteConfig.Strategy != limitItem.Strategy {
-		f.GlobalCounterFlowControl = f.newFlowControl(limitItem, newType)
+		f.GlobalCounterFlowControl = f.newFlowControl(applied, newType)
 		klog.Infof("[remote limiter] cluster=%q ensure flowcontrol schema %v", f.flowControlCache.cluster, f.String())
 		return
 	}
 
 	switch {
 	case limitItem.MaxRequestsInflight != nil && f.Type() == proxyv1alpha1.MaxRequestsInflight:
-		max := limitItem.MaxRequestsInflight.Max
-		globalMax := f.flowControlCache.local.Config().GlobalMaxRequestsInflight.Max
-		if max > globalMax {
-			max = globalMax
-		}
-
-		f.Resize(uint32(max), 0)
+		f.Resize(uint32(applied.MaxRequestsInflight.Max), 0)
 		klog.V(2).Infof("[remote limiter] cluster=%q resize flowcontrol schema=[%s], inflight=%v, id=%v",
 			f.flowControlCache.cluster, f.String(), f.flowControlCache.Inflight(), f.flowControlCache.clientID)
 	case limitItem.TokenBucket != nil && f.Type() == proxyv1alpha1.TokenBucket:
-		qps := limitItem.TokenBucket.QPS
-		globalQPS := f.flowControlCache.local.Config().GlobalTokenBucket.QPS
-		if qps > globalQPS {
-			qps = globalQPS
-		}
-
-		f.Resize(uint32(qps), uint32(limitItem.TokenBucket.Burst))
+		f.Resize(uint32(applied.TokenBucket.QPS), uint32(applied.TokenBucket.Burst))
 		klog.V(2).Infof("[remote limiter] cluster=%q resize flowcontrol schema=[%s], rate=%.1f, id=%v",
 			f.flowControlCache.cluster, f.String(), f.flowControlCache.Rate(), f.flowControlCache.clientID)
 	default:
-		f.GlobalCounterFlowControl = f.newFlowControl(limitItem, newType)
+		f.GlobalCounterFlowControl = f.newFlowControl(applied, newType)
 	}
+}
+
+// boundByGlobalLimit returns a copy of limitItem whose quota is bounded to
+// [0, global limit configured in the local schema], so that no answer of the
+// limiter server can make this instance admit more than the configured global limit.
+func (f *remoteWrapper) boundByGlobalLimit(limitItem proxyv1alpha1.RateLimitItemConfiguration) proxyv1alpha1.RateLimitItemConfiguration {
+	globalMax, globalQPS, globalBurst := int32(math.MaxInt32), int32(math.MaxInt32), int32(math.MaxInt32)
+	localConfig := f.flowControlCache.local.Config()
+	if global := localConfig.GlobalMaxRequestsInflight; global != nil {
+		globalMax = global.Max
+	}
+	if global := localConfig.GlobalTokenBucket; global != nil {
+		globalQPS, globalBurst = global.QPS, global.Burst
+	}
+
+	bound := func(v, global int32) int32 {
+		if v > global {
+			v = global
+		}
+		if v < 0 {
+			v = 0
+		}
+		return v
+	}
+	if item := limitItem.MaxRequestsInflight; item != nil {
+		limitItem.MaxRequestsInflight = &proxyv1alpha1.MaxRequestsInflightFlowControlSchema{
+			Max: bound(item.Max, globalMax),
+		}
+	}
+	if item := limitItem.TokenBucket; item != nil {
+		limitItem.TokenBucket = &proxyv1alpha1.TokenBucketFlowControlSchema{
+			QPS:   bound(item.QPS, globalQPS),
+			Burst: bound(item.Burst, globalBurst),
+		}
+	}
+	return limitItem
 }
 
 func (f *remoteWrapper) newFlowControl(limitItem proxyv1alpha1.RateLimitItemConfiguration, newType proxyv1alpha1.FlowControlSchemaType) GlobalCounterFlowControl {
